@@ -99,8 +99,11 @@ def design(ctx, embeds):
         cx, cy = coarse_for(cx, n), coarse_for(cy, n)
         # the first structure with two ids (interplay of two entries), the others with one
         nids = 2 if first else 1
+        ny = 1 if (first and ctx.quick) else n       # quick: the two-id run on a 3 x 2 grid
+        if ny != n:
+            cy = coarse_for(cy, ny)
         name = "design%d" % len(ctx.tlc_runs)
-        cfg = "SPECIFICATION Spec\n" + consts(nids, n, n, 3 * nids + 2) + "VIEW View\nINVARIANT " + INVS + "\nPROPERTY HistConsistent\n"
+        cfg = "SPECIFICATION Spec\n" + consts(nids, n, ny, 3 * nids + 2) + "VIEW View\nINVARIANT " + INVS + "\nPROPERTY HistConsistent\n"
         r = ctx.tlc(name, MODS[:2], mc_module(name, "Spatial", cx, cy), cfg, workers=TLC_WORKERS, timeout=900)
         if not r["ok"]:
             raise common.Infra("the intended Spatial design violates %s for CoarseX=%s CoarseY=%s (specification error): see %s"
@@ -110,6 +113,17 @@ def design(ctx, embeds):
         states += r["distinct"]
         trans += r["generated"]
         first = False
+    if not ctx.quick:
+        # three ids on a 3 x 2 grid: every dataset of three objects, every transition between them
+        cx, cy = coarse_for([-1, 0, 2, 3], 2), coarse_for([-1, 1, 2], 1)
+        name = "design3ids"
+        cfg = "SPECIFICATION Spec\n" + consts(3, 2, 1, 11) + "VIEW View\nINVARIANT " + INVS + "\n"
+        r = ctx.tlc(name, MODS[:2], mc_module(name, "Spatial", cx, cy), cfg, workers=TLC_WORKERS, timeout=1800)
+        if not r["ok"]:
+            raise common.Infra("the intended Spatial design violates %s with three ids: see %s" % (r["violated"], r["out"]))
+        ctx.log("TLC design 3 ids, 3 x 2 grid: %d datasets, %d transitions, all invariants hold (%.0fs)" % (r["distinct"], r["generated"], r["wall_s"]))
+        states += r["distinct"]
+        trans += r["generated"]
     # deviations: one TLC run per (deviation, invariant) on the structure "all cells inside one float32 gap"
     refuted = {}
     cx = cy = [-1, n + 1]
@@ -135,9 +149,9 @@ def design(ctx, embeds):
 
 # ------------------------------------------------------------------------------------------------- 2. generation
 
-def gen_bfs(ctx, name, nids, nx, ny, maxhist, timeout=1800):
+def gen_bfs(ctx, name, nids, nx, ny, maxhist, withkeys=True, timeout=1800):
     cx, cy = [-1, nx + 1], [-1, ny + 1]
-    cfg = "SPECIFICATION Spec\n" + consts(nids, nx, ny, maxhist) + "VIEW View\nINVARIANT " + INVS + "\nPROPERTY HistConsistent Emit\n"
+    cfg = "SPECIFICATION Spec\n" + consts(nids, nx, ny, maxhist, withkeys) + "VIEW View\nINVARIANT " + INVS + "\nPROPERTY HistConsistent Emit\n"
     # one worker: strict breadth-first order (shortest behaviours, deterministic output)
     r = ctx.tlc(name, MODS[:3], mc_module(name, "SpatialGen", cx, cy), cfg, workers=1, timeout=timeout)
     if not r["ok"]:
@@ -268,7 +282,7 @@ def describe(rej, ev, qi):
         why = set()
         for i in lost:
             k = kinds.get(i, "unknown")
-            if k == "empty-geometry" and qi["kind"].startswith("CIRCLE") and ev["cmd"] == "within":
+            if k == "empty-geometry" and qi["kind"].startswith(("CIRCLE", "GET(Feature(Circle))")) and ev["cmd"] == "within":
                 why.add("empty geometries inside a CIRCLE")
             elif k == "Feature(Circle)":
                 why.add("stored Circle features")
@@ -339,9 +353,9 @@ def selftest_replay(ctx, beh, areas, want):
     for mode in ("drop", "add"):
         st, js = replay(ctx, path, areas, "selftest-" + mode, extra=["-corrupt", mode, "-fillers", "0", "-clip-pairs", "2", "-sparse", "0"],
                         report=False)
-        if st["selftest_corrupted_steps"] == 0 or st["steps_with_mismatch"] != st["selftest_corrupted_steps"]:
+        if st["selftest_corrupted_steps"] == 0 or st["selftest_corrupted_steps_noticed"] != st["selftest_corrupted_steps"]:
             raise common.Infra("binding is vacuous: %d expected tables corrupted (%s), %d noticed" %
-                               (st["selftest_corrupted_steps"], mode, st["steps_with_mismatch"]))
+                               (st["selftest_corrupted_steps"], mode, st["selftest_corrupted_steps_noticed"]))
         total += st["selftest_corrupted_steps"]
     ctx.log("self-test (model->code): %d corrupted expected tables, every one noticed" % total)
     return total
@@ -407,6 +421,17 @@ def selftest_trace(ctx, trace, base_rej):
 def run(ctx):
     if ctx.replay:
         return run_replay(ctx)
+    try:
+        run_legs(ctx)
+    except common.Infra as e:
+        # a verdict that was already reached stays a verdict: trouble in a LATER leg (e.g. a self-test that cannot work
+        # on a tree that violates the property) must not turn exit 1 into exit 2
+        if not ctx.violations:
+            raise
+        ctx.log("later legs not completed after the violations above: %s" % str(e)[:600])
+
+
+def run_legs(ctx):
     acc = Acc()
     states = trans = 0
 
@@ -422,28 +447,28 @@ def run(ctx):
     r, beh1, areas1, k = gen_bfs(ctx, "cover1", 1, n1, n1, 4)
     states += r["distinct"]
     trans += k
-    acc.add(*replay(ctx, beh1, areas1, "cover1", extra=["-fillers", str(ctx.pick(60, 300))]))
+    acc.add(*replay(ctx, beh1, areas1, "cover1", extra=["-fillers", str(ctx.pick(40, 100))]))
     if not ctx.quick:
         r, beh1b, areas1b, k = gen_bfs(ctx, "cover1b", 1, 2, 2, 4)
         states += r["distinct"]
         trans += k
-        acc.add(*replay(ctx, beh1b, areas1b, "cover1-all-embeddings", extra=["-fillers", "200", "-all-embeddings"]))
+        acc.add(*replay(ctx, beh1b, areas1b, "cover1-all-embeddings", extra=["-fillers", "50", "-all-embeddings"]))
         os.remove(beh1b)
     # 2b. two ids: interplay of two entries (one moves, is overwritten, deleted while the other stays)
     nx, ny = ctx.pick((1, 1), (2, 1))
-    r, beh2, areas2, k = gen_bfs(ctx, "cover2", 2, nx, ny, 7)
+    r, beh2, areas2, k = gen_bfs(ctx, "cover2", 2, nx, ny, 7, withkeys=not ctx.quick)
     states += r["distinct"]
     trans += k
-    acc.add(*replay(ctx, beh2, areas2, "cover2", extra=["-fillers", str(ctx.pick(0, 150)), "-clip-pairs", "8", "-sparse", "4"]))
+    acc.add(*replay(ctx, beh2, areas2, "cover2", extra=["-fillers", str(ctx.pick(0, 40)), "-clip-pairs", "8", "-sparse", "4"]))
     os.remove(beh2)
     # 2c. random long behaviours on a finer grid with more ids, heavy churn, big filler populations
-    sims = ctx.pick([(3, 3, 100, 12)], [(4, 3, 600, 20), (3, 4, 200, 16)])
+    sims = ctx.pick([(3, 3, 80, 12)], [(4, 3, 400, 16), (3, 4, 100, 12)])
     for si, (nids, n, num, depth) in enumerate(sims):
         r, beh, areas, k = gen_sim(ctx, "sim%d" % si, nids, n, num, depth)
         states += r["generated"]
         trans += r["generated"]
-        acc.add(*replay(ctx, beh, areas, "sim%d" % si, extra=["-fillers", str(ctx.pick(1500, 4000)), "-big-every", str(ctx.pick(40, 25)),
-                                                               "-big", str(ctx.pick(20000, 100000)), "-clip-pairs", "30", "-sparse", "10"]))
+        acc.add(*replay(ctx, beh, areas, "sim%d" % si, extra=["-fillers", str(ctx.pick(1200, 3000)), "-big-every", str(ctx.pick(8, 25)),
+                                                               "-big", str(ctx.pick(6000, 100000)), "-clip-pairs", "30", "-sparse", "10"]))
         os.remove(beh)
     # self-test of the binding
     nmut = selftest_replay(ctx, beh1, areas1, ctx.pick(150, 600))
@@ -451,12 +476,12 @@ def run(ctx):
 
     # 3. code -> model
     rec_opts = dict(ops=ctx.pick(260, 500), pool=ctx.pick(40, 70), burst=ctx.pick(400, 1500), par=PAR)
-    rec_runs = ctx.pick(30, 240)
+    rec_runs = ctx.pick(30, 200)
     trace, info, rst, rjs = record(ctx, "recorded", "spatial-record", rec_opts, rec_runs)
     rsum, rrej = judge(ctx, "recorded", trace, info, {"kind": "spatial-record", "sub": "spatial-record", "opts": rec_opts})
     ntr = selftest_trace(ctx, trace, rrej)
-    in_opts = dict(n=ctx.pick(12000, 60000), queries=ctx.pick(12, 30), par=min(PAR, 4))
-    in_runs = ctx.pick(3, 8)
+    in_opts = dict(n=ctx.pick(12000, 60000), queries=ctx.pick(12, 25), par=min(PAR, 4))
+    in_runs = ctx.pick(3, 6)
     itrace, iinfo, ist, ijs = record(ctx, "inpackage", "spatial-inpkg", in_opts, in_runs)
     isum, irej = judge(ctx, "inpackage", itrace, iinfo, {"kind": "spatial-record", "sub": "spatial-inpkg", "opts": in_opts})
 
